@@ -510,8 +510,14 @@ func c15EvalAt(in c15Input, t c15T, count c15Counter) (fails []c15Fail) {
 		if len(cs) != len(in.Children) {
 			fail(k+"/apply/out-of-range-children", fmt.Sprintf("child list length changed from %d to %d on the error path", len(in.Children), len(cs)), nil)
 		} else {
+			named := map[int]bool{} // children some in-time update names (they may be half-way)
+			for _, u := range in.Updates {
+				if !t.less(u.At) {
+					named[u.Index] = true
+				}
+			}
 			for i := range cs {
-				if want.Children[i] == in.Children[i] && cs[i] != in.Children[i] {
+				if !named[i] && cs[i] != in.Children[i] {
 					fail(k+"/apply/out-of-range-children", fmt.Sprintf("child %d, named by no in-time update, changed on the error path", i), nil)
 					break
 				}
@@ -1012,6 +1018,21 @@ func c15Gen(r *gen.R) (children []c15Child, ups []c15Upd, ann string) {
 		if r.Chance(0.05) {
 			u.Lat, u.Lon = 0, 0
 		}
+		if u.Index < n && r.Chance(0.3) {
+			// near-equal update: the child as it is (or as an earlier update of the same
+			// child leaves it) with only a subset of {version, changeset, location,
+			// reverse} different; mask 0 is the update that changes nothing
+			base := c15Upd{Version: children[u.Index].Version, CS: children[u.Index].CS, Lat: children[u.Index].Lat, Lon: children[u.Index].Lon}
+			if r.Bool() {
+				for j := len(ups) - 1; j >= 0; j-- {
+					if ups[j].Index == u.Index {
+						base = ups[j]
+						break
+					}
+				}
+			}
+			u = c15Differ(base, u.Index, u.At, r.Intn(16), r.Range(1, 3))
+		}
 		if r.Chance(0.25) {
 			u.Zone = r.Range(-12, 14) * 3600
 		}
@@ -1019,6 +1040,44 @@ func c15Gen(r *gen.R) (children []c15Child, ups []c15Upd, ann string) {
 	}
 	r.Shuffle(len(ups), func(i, j int) { ups[i], ups[j] = ups[j], ups[i] })
 	return
+}
+
+// c15Differ makes the update that differs from the state base describes in exactly the
+// things of mask: 1 version, 2 changeset, 4 location, 8 reverse flag.
+func c15Differ(base c15Upd, index int, at c15T, mask, step int) c15Upd {
+	u := c15Upd{Index: index, At: at, Version: base.Version, CS: base.CS, Lat: base.Lat, Lon: base.Lon}
+	if mask&1 != 0 {
+		u.Version += step
+	}
+	if mask&2 != 0 {
+		u.CS += int64(step)
+	}
+	if mask&4 != 0 {
+		u.Lat += 0.125 * float64(step)
+		if mask&16 == 0 {
+			u.Lon -= 0.25 * float64(step)
+		}
+	}
+	u.Reverse = mask&8 != 0
+	return u
+}
+
+// c15DiffMask says in which of the four things an update differs from a child.
+func c15DiffMask(u c15Upd, c c15Child) int {
+	m := 0
+	if u.Version != c.Version {
+		m |= 1
+	}
+	if u.CS != c.CS {
+		m |= 2
+	}
+	if u.Lat != c.Lat || u.Lon != c.Lon {
+		m |= 4
+	}
+	if u.Reverse {
+		m |= 8
+	}
+	return m
 }
 
 // c15BeyondIndex draws an index beyond a child list of length n, of every magnitude: just
@@ -1296,6 +1355,12 @@ func (x *c15Run) check(in c15Input, order, ann string) {
 	static := fmt.Sprintf("%s/%s/n%s/m%s/ts%s/%s/%s/ord%v%s", in.kind(), order, c15Class(len(in.Children), 0, 1, 4, 12),
 		c15Class(len(in.Updates), 0, 1, 5, 15, 30), c15Class(len(distinct), 0, 1, 3, 8, 30), oorClass, ann, c15ChildOrdered(in.Updates), rep)
 	for _, u := range in.Updates {
+		if u.Index < len(in.Children) {
+			if cl := fmt.Sprintf("diffmask/%s/%02d", in.kind(), c15DiffMask(u, in.Children[u.Index])); !x.sigs[cl] {
+				x.sigs[cl] = true
+				x.res.Put("update_differs_from_child_in_subsets", cl[len("diffmask/"):])
+			}
+		}
 		if u.Index >= len(in.Children) {
 			if cl := "oorclass/" + c15IndexClass(u.Index, len(in.Children)); !x.sigs[cl] {
 				x.sigs[cl] = true
@@ -1475,6 +1540,55 @@ func c15Exec(c fw.Case) *fw.Result {
 		}
 		res.Add("enumerated_lists", int64(lists))
 		res.Sample = map[string]any{"children": n, "max_updates": maxm, "timestamps": 3, "lists": lists}
+	case "subsets":
+		// every subset of {version, changeset, location, reverse} as the difference between
+		// an update and the child it names (and between two successive updates of one
+		// child), for way nodes and for members; with and without changeset metadata.
+		x.extremes = c15ExtremeShort
+		t0 := c15T{Sec: 1400000000}
+		lists := 0
+		sh := int(c.Int("shard")) // 12 shards: kind x changeset metadata x child
+		for _, rel := range []bool{sh&1 == 1} {
+			for _, nocs := range []bool{sh&2 == 2} {
+				children := []c15Child{
+					{Type: "way", Ref: 11, Role: "outer", Version: 3, CS: 40, Lat: 1.5, Lon: 2.5, Orient: 1},
+					{Type: "node", Ref: 12, Role: "stop", Version: 7, CS: 41, Lat: -3.25, Lon: 4.75},
+					{Type: "way", Ref: 13, Role: "inner", Version: 1, CS: 42, Lat: 5.5, Lon: -6.5, Orient: -1},
+				}
+				if nocs {
+					for i := range children {
+						children[i].CS = 0
+					}
+				}
+				if !rel {
+					children = c15WayView(children)
+				}
+				for idx := sh >> 2; idx == sh>>2; idx++ {
+					c := children[idx]
+					base := c15Upd{Version: c.Version, CS: c.CS, Lat: c.Lat, Lon: c.Lon}
+					for m1 := 0; m1 < 16; m1++ {
+						u1 := c15Differ(base, idx, t0, m1, 1)
+						x.check(c15Input{Rel: rel, Children: children, Updates: []c15Upd{u1}}, "subsets", "full")
+						lists++
+						for m2 := 0; m2 < 16; m2++ {
+							for _, later := range []bool{false, true} {
+								at := t0
+								if later {
+									at = t0.add(5_000_000_000)
+								}
+								u2 := c15Differ(u1, idx, at, m2, 2)
+								// a bystander update of another child stored in between
+								by := c15Differ(c15Upd{Version: 9, CS: 9, Lat: 9, Lon: 9}, (idx+1)%len(children), t0.add(2_000_000_000), 7, 1)
+								x.check(c15Input{Rel: rel, Children: children, Updates: []c15Upd{u1, by, u2}}, "subsets", "full")
+								lists++
+							}
+						}
+					}
+				}
+			}
+		}
+		res.Add("subset_lists", int64(lists))
+		res.Sample = map[string]any{"subsets": 16, "lists": lists}
 	case "consumer":
 		r := gen.New(c.Seed, "c15consumer")
 		for b := 0; b < int(c.Int("batch")); b++ {
@@ -1552,7 +1666,8 @@ func init() {
 		ID:    "C15",
 		Level: "exploration",
 		Rule: "enumerated part (seed independent): 0-3 children, every update list of length <= 3 (4 in thorough) over (index 0..n where n is out of range, three timestamps, reverse flag on relations), fully annotated, with an unannotated first node, and closed (last child = first child); " +
-			"random part: 0-12 children (annotated in several shapes / partially / not), 0-30 updates drawn over a pool of 1-30 timestamps (duplicates, 1 ns neighbours, non-UTC locations), ids repeated across positions in 35% of inputs with >= 2 children (closed, figure-eight, one child twice, one id everywhere; twin identical or same id with other values), up to 2 out-of-range indices in 12% of inputs, each bag stored index-sorted, time-sorted, shuffled and interleaved (children mixed, each child in time order), as a way and as a relation. " +
+			"subsets part (seed independent): an update differing from the child it names in every subset of {version, changeset, location, reverse flag} (incl. none), alone and followed by a second update of the same child differing from the first in every subset, way nodes and members, with and without changeset metadata; " +
+			"random part: 30% of the in-range updates are such near-equal updates (relative to the child or to an earlier update of it); 0-12 children (annotated in several shapes / partially / not), 0-30 updates drawn over a pool of 1-30 timestamps (duplicates, 1 ns neighbours, non-UTC locations), ids repeated across positions in 35% of inputs with >= 2 children (closed, figure-eight, one child twice, one id everywhere; twin identical or same id with other values), up to 2 out-of-range indices in 12% of inputs, each bag stored index-sorted, time-sorted, shuffled and interleaved (children mixed, each child in time order), as a way and as a relation. " +
 			"consumer part: multipolygon relations with 1-2 closed, fully annotated way members (3-7 nodes, 1-8 updates, four stored orders) annotated through annotate.Relations at every instant as the relation's commit time, once with the ways carrying their updates and once with the reference-applied ways (the only public path into internal/mputil.Group -> LineStringAt). " +
 			"Per stored input every distinct instant (zero time, just below, at, between, just above, far future) is evaluated against the reference transition; pairs t1<=t2 for composability (all pairs when few). " +
 			"A signature is (kind, stored order, size classes of children/updates/distinct timestamps, out-of-range class, annotation class, child-ordered flag, position of t, late-update-stored-before-in-time-one flag); distinct_nontrivial counts distinct signatures.",
@@ -1590,6 +1705,9 @@ func init() {
 				for n := 1; n <= 2; n++ {
 					cs = append(cs, fw.Case{Kind: "enum", P: map[string]int64{"n": int64(n), "maxm": int64(maxm - 1), "maxpair": 1000, "shard": 0, "shards": 1, "oor": 1<<32 + int64(n-1)}})
 				}
+			}
+			for sh := 0; sh < 12; sh++ {
+				cs = append(cs, fw.Case{Kind: "subsets", P: map[string]int64{"maxpair": 1000, "shard": int64(sh)}})
 			}
 			for i := 0; i < ncases; i++ {
 				cs = append(cs, fw.Case{Kind: "random", Seed: gen.Sub(seed, "c15", i), P: map[string]int64{"batch": int64(batch), "maxpair": int64(maxpair)}})
